@@ -429,30 +429,38 @@ def mkAtomsWith (n : Nat) (atypeS posS : Src) (extra : List (String × Src)) : M
   forEach extra (fun kv => viewSet o kv.1 kv.2)
   pure o
 
+/-- the number of atoms `Atoms.__init__` infers from `natoms` and the shapes of `atype` and `pos`. -/
+def atomsCount (natoms : Option Int) (sa sp : List Nat) : Except Err Nat :=
+  match (match sa with
+    | [] => .ok 1
+    | [n] => .ok n
+    | _ => .error .value : Except Err Nat) with
+  | .error e => .error e
+  | .ok na =>
+    match (match sp with
+      | [d] => if d = 3 then .ok 1 else .error .value
+      | [n, d] => if d = 3 then .ok n else .error .value
+      | _ => .error .value : Except Err Nat) with
+    | .error e => .error e
+    | .ok np =>
+      match natoms with
+      | some k =>
+        if k < 0 then .error .value
+        else if (na = 1 ∨ na = k.toNat) ∧ (np = 1 ∨ np = k.toNat) then .ok k.toNat
+        else .error .value
+      | none =>
+        if na = np then .ok na
+        else if na = 1 then .ok np
+        else if np = 1 then .ok na
+        else .error .value
+
 /-- `Atoms(natoms=…, atype=…, pos=…, **extra)`; returns the id of the new object. -/
 def mkAtoms (natoms : Option Int) (atype pos : Option Src) (extra : List (String × Src)) : M Nat :=
   atomic do
     let s ← getS
     let atypeS : Src := atype.getD (.lit ⟨.int, [1], [.int 1]⟩)
     let posS : Src := pos.getD (.lit ⟨.flt, [1, 3], [.flt 0, .flt 0, .flt 0]⟩)
-    let na ← (match (srcVal s atypeS).shape with
-      | [] => pure 1
-      | [n] => pure n
-      | _ => fail .value : M Nat)
-    let np ← (match (srcVal s posS).shape with
-      | [d] => if d = 3 then pure 1 else fail .value
-      | [n, d] => if d = 3 then pure n else fail .value
-      | _ => fail .value : M Nat)
-    let n ← (match natoms with
-      | some k =>
-        if k < 0 then fail .value
-        else if (na = 1 ∨ na = k.toNat) ∧ (np = 1 ∨ np = k.toNat) then pure k.toNat
-        else fail .value
-      | none =>
-        if na = np then pure na
-        else if na = 1 then pure np
-        else if np = 1 then pure na
-        else fail .value : M Nat)
+    let n ← liftE (atomsCount natoms (srcVal s atypeS).shape (srcVal s posS).shape)
     mkAtomsWith n atypeS posS extra
 
 /-! ## `Atoms` methods -/
